@@ -495,8 +495,9 @@ func (fx *FuncCtx) builtin(st *State, b *ssa.Builtin, args []Val, rt types.Type,
 		kc := HeapKey{"CH$closed", "(Array Int Bool)"}
 		cur := fx.heapGet(st.heap, kc)
 		fx.nilCheck(st, ch, pos, "close of nil channel")
-		fx.decls.declare("CH$open", "(Array Int Bool)")
-		fx.oblige(st, "safe", "close-open", not(sx("select", "CH$open", ch)), pos, "close of a channel declared `openchan` (never closed)")
+		if fx.openChans[ch] {
+			fx.oblige(st, "safe", "close-open", "false", pos, "close of a channel declared `openchan` (never closed)")
+		}
 		if len(st.held) == 0 && fx.fc.Opts["trust_unlocked_close"] != "" {
 			fx.trusted["close(ch) outside the lock in "+fx.key+" is assumed not to hit a closed channel (needs an ownership argument outside the monitor)"] = true
 		} else {
